@@ -199,14 +199,15 @@ func (c *conn) receive() (err error) {
 					err = core.InvalidResponseError{Response: body}
 				}
 				// the error is the answer to ONE datagram: its caller gets
-				// it, the socket and the other pending calls are not affected
+				// it (if it is still waiting), the socket and the other
+				// pending calls are not affected
 				if resultChan, loaded := c.loadAndDelete(index); loaded {
 					resultChan <- data{
 						Index: index,
 						Error: err,
 					}
-					err = nil
 				}
+				err = nil
 			} else if resultChan, loaded := c.loadAndDelete(index); loaded {
 				resultChan <- data{
 					Index: index,
